@@ -29,6 +29,7 @@ analysis procedures.
 import functools
 import sys
 import types
+import warnings
 
 import numpy as np
 import yaml
@@ -105,9 +106,6 @@ class HoloPyObject(Serializable):
                              defaults.get(var) is not None)
             if getattr(self, var, None) is not None or explicit_none:
                 item = getattr(self, var)
-                if not found_by_name(item):
-                    # would be written, and then refused by every loader
-                    continue
                 if isinstance(item, np.ndarray) and item.ndim == 1:
                     item = list(item)
                 yield var, item
@@ -122,7 +120,18 @@ class HoloPyObject(Serializable):
         # alias of its first occurrence, so that shared priors stay shared)
         if dumper.alias_key is not None:
             dumper.represented_objects[dumper.alias_key] = node
+        init = type(data).__init__.__code__
+        named = init.co_varnames[:init.co_argcount + init.co_kwonlyargcount]
+        defaults = (type(data).__init__.__defaults__ or ())
+        optional = set(named[init.co_argcount - len(defaults):init.co_argcount])
+        optional.update(type(data).__init__.__kwdefaults__ or {})
         for key, item in data._iteritems():
+            if key in optional and not found_by_name(item):
+                # written by name it would be refused by every loader, and
+                # the whole file with it: left out, it reloads as the default
+                warnings.warn("{0}: {1} cannot be saved by name; the loaded "
+                              "object will have the default".format(tag, key))
+                continue
             node_key = dumper.represent_data(key)
             node_value = dumper.represent_data(item)
             value.append((node_key, node_value))
